@@ -7,8 +7,9 @@
    (R_i : list R of any length d, J_i : d rows of any width p); wf_block p = shapes agree.
    JtR b l = (J_i^T R_i)_l,  JtJ b l m = (J_i^T J_i)_{lm},  bsum = sum over the blocks of the
    corrected tensor, robust_grad rho' bs l = sum_i rho'(|R_i|^2) (J_i^T R_i)_l.
-   fasttriggs rho1 bs / triggs graph rho1 rho2 bs : rho1, rho2 = what autograd returns for rho',
-   rho''; graph = false when rho' is a constant of the autograd graph (compute_grads raises). *)
+   fasttriggs rho1 bs / triggs rho1 rho2 bs : rho1, rho2 = what autograd returns for rho', rho''.
+   The model follows the repaired source (e6f8307, 298dcfc, af4d69c); kernel_old / triggs_old are the
+   previous behaviour, used only by the C09_old_..._refuted history theorems. *)
 From Coq Require Import Reals List.
 From Coquelicot Require Import Coquelicot.
 From PV Require Import Base.Num Model.Kernel Proofs.Kernel.
@@ -40,13 +41,13 @@ Theorem C09_huber_C1_at_threshold : forall d p2, 0 < d ->
   continuous (kernel_d1 KHuber d p2) (d * d).
 Proof. exact huber_C1. Qed.
 
-(* negative input: rejected by the six kernels that assert, for all parameters ... *)
-Theorem C09_kernel_rejects_negative : forall k p1 p2 x, k <> KScale -> x < 0 -> kernel k p1 p2 x = None.
+(* negative input is rejected by all seven kernels, for all parameters *)
+Theorem C09_kernel_rejects_negative : forall k p1 p2 x, x < 0 -> kernel k p1 p2 x = None.
 Proof. exact kernel_rejects_negative. Qed.
-(* ... but accepted by Scale, whose forward has no assertion (finding) *)
-Theorem C09_scale_rejects_negative_refuted :
-  exists d x y, kernel_params KScale d 0 /\ x < 0 /\ kernel KScale d 0 x = Some y.
-Proof. exact scale_rejects_negative_refuted. Qed.
+(* history (before e6f8307): Scale.forward had no assertion and accepted it *)
+Theorem C09_old_scale_rejects_negative_refuted :
+  exists d x y, kernel_params KScale d 0 /\ x < 0 /\ kernel_old KScale d 0 x = Some y.
+Proof. exact scale_old_rejects_negative_refuted. Qed.
 
 (* the modelled rho', rho'' (what autograd is assumed to return for the built-in kernels) are the
    true derivatives of the closed forms on x >= 0 (Huber's rho'' away from the threshold, where it
@@ -88,61 +89,66 @@ Proof. exact fasttriggs_kernel_grad. Qed.
 Theorem C09_triggs_defined : forall (rho1 rho2 : R -> R) (bs : list (@block R)),
   (forall b, In b bs -> 0 <= rho1 (sqnorm b)) ->
   (forall b, In b bs -> triggs_mask (sqnorm b) (rho2 (sqnorm b)) = true -> 0 < rho1 (sqnorm b)) ->
-  exists bs', triggs true rho1 rho2 bs = Some bs'.
+  exists bs', triggs rho1 rho2 bs = Some bs'.
 Proof. exact triggs_defined. Qed.
+
+(* gradient identity for EVERY kernel (rho'' > 0, = 0, < 0), all blocks, any d and width p:
+   J'^T R' = sum_i rho'(|R_i|^2) J_i^T R_i *)
+Theorem C09_triggs_grad : forall (rho1 rho2 : R -> R) (p : nat) (bs bs' : list (@block R)),
+  triggs rho1 rho2 bs = Some bs' -> Forall (wf_block p) bs ->
+  forall l, (l < p)%nat -> bsum (fun b => JtR b l) bs' = robust_grad rho1 bs l.
+Proof. exact triggs_grad. Qed.
+Theorem C09_triggs_grad_of_robust_loss : forall (rho rho1 rho2 : R -> R) (p : nat) (bs bs' : list (@block R)),
+  (forall x, 0 <= x -> is_derive rho x (rho1 x)) -> triggs rho1 rho2 bs = Some bs' ->
+  Forall (wf_block p) bs -> forall l, (l < p)%nat ->
+  bsum (fun b => JtR b l) bs' = robust_grad (Derive rho) bs l.
+Proof. exact triggs_grad_derive. Qed.
 
 (* Hessian identity, all blocks, any d and width p:
    J'^T J' = sum_i rho' J_i^T J_i + [rho'' > 0 and R_i <> 0] 2 rho'' (J_i^T R_i)(J_i^T R_i)^T *)
-Theorem C09_triggs_hess : forall (graph : bool) (rho1 rho2 : R -> R) (p : nat) (bs bs' : list (@block R)),
-  triggs graph rho1 rho2 bs = Some bs' -> Forall (wf_block p) bs ->
+Theorem C09_triggs_hess : forall (rho1 rho2 : R -> R) (p : nat) (bs bs' : list (@block R)),
+  triggs rho1 rho2 bs = Some bs' -> Forall (wf_block p) bs ->
   forall l m, (l < p)%nat -> (m < p)%nat ->
   bsum (fun b => JtJ b l m) bs' = triggs_hess_rhs rho1 rho2 bs l m.
 Proof. exact triggs_hess. Qed.
 Theorem C09_triggs_mask_meaning : forall x g2 : R, triggs_mask x g2 = true <-> x <> 0 /\ 0 < g2.
 Proof. exact triggs_mask_true. Qed.
 
-(* off the mask (rho'' <= 0 or R_i = 0) Triggs coincides with FastTriggs, block by block and hence
-   on tensors without masked blocks; there the gradient identity holds *)
+(* off the mask (rho'' <= 0 or R_i = 0) Triggs coincides with FastTriggs, block by block and on
+   tensors without masked blocks *)
 Theorem C09_triggs_eq_fasttriggs_off_mask : forall (g1 g2 : R) Rv J,
   triggs_mask (dot Rv Rv) g2 = false -> triggs_block g1 g2 Rv J = fasttriggs_block g1 Rv J.
 Proof. exact triggs_block_off_mask. Qed.
-Theorem C09_triggs_grad_partial : forall (rho1 rho2 : R -> R) (bs bs' : list (@block R)),
+Theorem C09_triggs_eq_fasttriggs_unmasked_tensor : forall (rho1 rho2 : R -> R) (bs : list (@block R)),
   (forall b, In b bs -> triggs_mask (sqnorm b) (rho2 (sqnorm b)) = false) ->
-  triggs true rho1 rho2 bs = Some bs' ->
-  forall l, bsum (fun b => JtR b l) bs' = robust_grad rho1 bs l.
-Proof. exact triggs_grad_off_mask. Qed.
-(* partial: the clause "J'^T R' = sum rho' J^T R for Triggs" is FALSE on masked blocks of the
-   faithful model (sR[M] = se[M] / (1 - alpha) drops R): *)
-Theorem C09_triggs_grad_refuted :
+  triggs rho1 rho2 bs = fasttriggs rho1 bs.
+Proof. exact triggs_eq_fasttriggs. Qed.
+
+(* all seven built-in kernels (Scale and its constant slope included): rho'' <= 0, so Triggs returns,
+   equals FastTriggs, and its gradient is the gradient of the robust loss *)
+Theorem C09_triggs_builtin_kernels : forall k p1 p2 (bs : list (@block R)), kernel_params k p1 p2 ->
+  exists bs', triggs_kernel k p1 p2 bs = Some bs' /\ fasttriggs_kernel k p1 p2 bs = Some bs' /\
+    forall l, bsum (fun b => JtR b l) bs' = robust_grad (Derive (fun t => kernel_f k p1 p2 t)) bs l.
+Proof. exact triggs_kernel_grad. Qed.
+
+(* history (before 298dcfc, sR[M] = se[M] / (1 - alpha) dropped R): the gradient identity failed on
+   masked blocks; on the repaired code the same witness gives 16 *)
+Theorem C09_old_triggs_grad_refuted :
   exists (rho rho1 rho2 : R -> R) (bs bs' : list (@block R)) (l : nat),
     (forall x, is_derive rho x (rho1 x) /\ is_derive rho1 x (rho2 x)) /\
     Forall (wf_block 1) bs /\ (l < 1)%nat /\
     (forall b, In b bs -> triggs_mask (sqnorm b) (rho2 (sqnorm b)) = true) /\
-    triggs true rho1 rho2 bs = Some bs' /\
+    triggs_old true rho1 rho2 bs = Some bs' /\
     bsum (fun b => JtR b l) bs' = 8 /\ robust_grad rho1 bs l = 16.
-Proof. exact triggs_grad_refuted. Qed.
-(* the documented formula R' = sqrt(rho') / (1 - alpha) R (same J') does satisfy it: the repair *)
-Theorem C09_triggs_documented_formula_grad : forall (g1 g2 : R) Rv J p l,
-  0 < g1 -> 0 < g2 -> dot Rv Rv <> 0 -> wf_block p (Rv, J) -> (l < p)%nat ->
-  JtR (triggs_masked_documented g1 g2 Rv J) l = g1 * JtR (Rv, J) l.
-Proof. exact triggs_documented_grad. Qed.
-
-(* built-in kernels: rho'' <= 0, so Triggs = FastTriggs (and inherits its identities) ... *)
-Theorem C09_triggs_builtin_kernels : forall k p1 p2 (bs : list (@block R)),
-  kernel_params k p1 p2 -> k <> KScale -> triggs_kernel k p1 p2 bs = fasttriggs_kernel k p1 p2 bs.
-Proof. exact triggs_kernel_eq_fasttriggs. Qed.
-(* ... except Scale (rho' constant in the autograd graph): compute_grads raises while FastTriggs
-   returns - "Triggs returns (R', J') for any kernel" is refuted *)
-Theorem C09_triggs_returns_refuted :
+Proof. exact triggs_old_grad_refuted. Qed.
+Theorem C09_triggs_grad_witness_now : forall bs' : list (@block R),
+  triggs sq_rho1 sq_rho2 refute_blocks = Some bs' -> bsum (fun b => JtR b 0%nat) bs' = 16.
+Proof. exact refute_witness_now. Qed.
+(* history (before af4d69c): compute_grads raised for Scale while FastTriggs returned *)
+Theorem C09_old_triggs_returns_refuted :
   exists (d : R) (bs : list (@block R)), kernel_params KScale d 0 /\ Forall (wf_block 1) bs /\
-    (exists bs', fasttriggs_kernel KScale d 0 bs = Some bs') /\ triggs_kernel KScale d 0 bs = None.
-Proof. exact triggs_scale_refuted. Qed.
-
-(* the raise is structural: for every number type (no real-number axioms involved) *)
-Theorem C09_triggs_scale_raises_any_number_type :
-  forall (F : Type) (NF : Num F) (TF : Trans F) (d p2 : F) (bs : list (@block F)),
-    @triggs_kernel F NF TF KScale d p2 bs = None.
-Proof. reflexivity. Qed.
+    (exists bs', fasttriggs_kernel KScale d 0 bs = Some bs') /\ triggs_kernel_old KScale d 0 bs = None.
+Proof. exact triggs_old_scale_refuted. Qed.
 
 (* hypotheses are satisfiable *)
 Example C09_params_satisfiable :
@@ -153,13 +159,14 @@ Proof. exact params_satisfiable. Qed.
 
 Print Assumptions C09_kernel_closed_form_finite. Print Assumptions C09_kernel_value_at_0.
 Print Assumptions C09_kernel_nondecreasing. Print Assumptions C09_huber_C1_at_threshold.
-Print Assumptions C09_kernel_rejects_negative. Print Assumptions C09_scale_rejects_negative_refuted.
+Print Assumptions C09_kernel_rejects_negative. Print Assumptions C09_old_scale_rejects_negative_refuted.
 Print Assumptions C09_kernel_derivatives.
 Print Assumptions C09_fasttriggs_defined. Print Assumptions C09_fasttriggs_grad.
 Print Assumptions C09_fasttriggs_hess. Print Assumptions C09_fasttriggs_grad_of_robust_loss.
 Print Assumptions C09_fasttriggs_builtin_kernels.
-Print Assumptions C09_triggs_defined. Print Assumptions C09_triggs_hess. Print Assumptions C09_triggs_mask_meaning.
-Print Assumptions C09_triggs_eq_fasttriggs_off_mask. Print Assumptions C09_triggs_grad_partial.
-Print Assumptions C09_triggs_grad_refuted. Print Assumptions C09_triggs_documented_formula_grad.
-Print Assumptions C09_triggs_builtin_kernels. Print Assumptions C09_triggs_returns_refuted.
-Print Assumptions C09_triggs_scale_raises_any_number_type.
+Print Assumptions C09_triggs_defined. Print Assumptions C09_triggs_grad.
+Print Assumptions C09_triggs_grad_of_robust_loss. Print Assumptions C09_triggs_hess.
+Print Assumptions C09_triggs_mask_meaning. Print Assumptions C09_triggs_eq_fasttriggs_off_mask.
+Print Assumptions C09_triggs_eq_fasttriggs_unmasked_tensor. Print Assumptions C09_triggs_builtin_kernels.
+Print Assumptions C09_old_triggs_grad_refuted. Print Assumptions C09_triggs_grad_witness_now.
+Print Assumptions C09_old_triggs_returns_refuted.
